@@ -68,7 +68,10 @@ def step_pairs(st):
             # a name that is not a string (a yaml slip) is written as the value it is
             txt = 'null' if v is None else (v if isinstance(v, str) and PLAIN.match(v) else yval(v))
         elif key == 'in':
-            txt = 'null' if v is None else '{' + ', '.join(f'{yval(k)}: {yval(x)}' for k, x in v) + '}'
+            if isinstance(v, dict) and set(v) == {'bad'}:
+                txt = yval(v['bad'])          # `in:` that is no mapping (a yaml slip)
+            else:
+                txt = 'null' if v is None else '{' + ', '.join(f'{yval(k)}: {yval(x)}' for k, x in v) + '}'
         elif key in ('while', 'retry'):
             if v is None:
                 txt = 'null'
@@ -278,15 +281,32 @@ def renumber(obs):
 
 def num(w):
     if isinstance(w, dict) and 'f' in w:
-        return w['f'][0] / (1 << w['f'][1])
+        try:
+            return w['f'][0] / (1 << w['f'][1])
+        except OverflowError:        # an exact number beyond the float range (an unbounded exponential back-off)
+            return float('inf') if w['f'][0] > 0 else float('-inf')
     return w
+
+
+def as_float(x):
+    """float(x), saturating: the model's exact numbers (and Python ints) can exceed the float range"""
+    try:
+        return float(x) + 0.0        # -0.0 (0 * a negative jrc) is the zero sleep: the exact model has one zero
+    except OverflowError:
+        return float('inf') if x > 0 else float('-inf')
 
 
 BUILTIN_TEXT = {'TypeError', 'AttributeError', 'IndexError', 'KeyError', 'NameError'}
 
 
+PROBE_TEXTS = ('bad thing', "it's", 'x {k1} y')
+
+
 def probe_msg(m):
-    return isinstance(m, str) and (m.startswith('boom ') or m in ('bad thing', "it's", 'x {k1} y'))
+    """a message text the probe step chose (also as str(KeyError(text)) = repr(text))"""
+    if not isinstance(m, str):
+        return False
+    return m.startswith('boom ') or m in PROBE_TEXTS or m.startswith("'boom ") or m in tuple(repr(x) for x in PROBE_TEXTS)
 
 
 def builtin_text(entry):
@@ -336,7 +356,7 @@ class Impl:
 
     def __init__(self):
         self.root = Path(tempfile.mkdtemp(prefix='vflow_'))
-        for f in ('vprobe.py', 'vparser.py'):
+        for f in ('vprobe.py', 'vparser.py', 'built.py', 'main.py'):
             shutil.copy(PROBE_DIR / f, self.root / f)
         sys.path.insert(0, str(self.root))
         self.n = 0
@@ -350,13 +370,24 @@ class Impl:
         impl = self
 
         class Clock:
+            """virtual clock with time.sleep's own argument checks (CPython: a non-number is a TypeError, a
+            negative or NaN duration a ValueError - nothing is slept then)"""
             def sleep(self, d):
+                if not isinstance(d, (int, float)):
+                    raise TypeError(f"'{type(d).__name__}' object cannot be interpreted as an integer")
+                if d != d:
+                    raise ValueError('Invalid value NaN (not a number)')
+                if d < 0:
+                    raise ValueError('sleep length must be non-negative')
                 impl.sleeps.append(d)
 
         class Rnd:
             def uniform(self, a, b):
+                # random.uniform is `a + (b - a) * self.random()`: the span is computed (and can raise)
+                # before a random number is drawn
+                span = b - a
                 r = impl.rnd.pop(0) if impl.rnd else 0
-                return a + (b - a) * r
+                return a + span * r
         self._orig = (poll.time, retries.random, pr.Context)
         poll.time = Clock()
         retries.random = Rnd()
@@ -405,6 +436,12 @@ class Impl:
                 kwargs[b] = run[a]
         root_name = str(d / run['name'])
         ret = None
+        # global configuration as it stands WHILE the run executes (a config file merged by config.init(), an API
+        # assignment): set after pypyr's modules were imported, put back afterwards
+        from pypyr.config import config as _config
+        _old_backoff = _config.default_backoff
+        if isinstance(run.get('default_backoff'), str):
+            _config.default_backoff = run['default_backoff']
         try:
             if reuse >= 2:
                 import copy
@@ -437,6 +474,8 @@ class Impl:
             outcome = {'err': {'id': objs.setdefault(id(e), len(objs) + 1000), 'name': common.exc_name(e),
                                'msg': str(e)}}
             self._keep = e
+        finally:
+            _config.default_backoff = _old_backoff
         ctx = ret if ret is not None else self.last_ctx
         try:
             ctxw = enc(dict(ctx), objs) if ctx is not None else None
@@ -452,7 +491,7 @@ class Impl:
             trace.append({'tag': ev['tag'], 'i': ov(ev['i']), 'w': ov(ev['w']), 'r': ov(ev['r']),
                           'nerr': ev['nerr'], 'pipe': pipe, 'depth': ev['depth'],
                           'keys': [[k, ov(v)] for k, v in ev['keys']]})
-        obs = {'trace': trace, 'sleeps': [float(x) if isinstance(x, (int, float)) else repr(x) for x in self.sleeps], 'outcome': outcome, 'ctx': ctxw,
+        obs = {'trace': trace, 'sleeps': [as_float(x) if isinstance(x, (int, float)) else repr(x) for x in self.sleeps], 'outcome': outcome, 'ctx': ctxw,
                'returned_ctx': ret is not None,
                'stack': [p.name for p in ctx._stack] if ctx is not None else []}
         if not keep:
@@ -474,7 +513,7 @@ def model_run(driver, prog, fuel=3000):
     prepare(prog)
     req = strip_for_model(prog)
     obs = driver.ask('flow.run', pipes=req['pipes'], run=req['run'], rnd=req.get('rnd', []), fuel=fuel)
-    obs['sleeps'] = [float(num(x)) for x in obs['sleeps']]
+    obs['sleeps'] = [as_float(num(x)) for x in obs['sleeps']]
     return renumber(obs)
 
 
